@@ -59,7 +59,7 @@ func main() {
 	r.Assume("a statement that fails with a duplicate-key error on the indexed table is not given to the twin; a twin-only duplicate-key failure (row-order dependent multi-row key update) is inconclusive")
 	r.Assume("the structural H3 walk of DESIGN §4 (witness finder only, no verdict) is not available in /repo and is left out")
 
-	n := r.N(200, 3000)
+	n := r.N(200, 2000)
 	if os.Getenv("C16_N") != "" {
 		fmt.Sscan(os.Getenv("C16_N"), &n) // development aid: shorter runs
 	}
